@@ -55,7 +55,7 @@ theorem job_steps (i : Inst) (h : WF i) {as : List Nat} {s : State}
 
 /-- Non-vacuity: 2 stages × 1 machine, 2 jobs; the episode `[0, 1, wait, 0, 1]`… here `[0,1,0,1]`
 is mask-confined, finishes, and its reward is −makespan = −4. -/
-def ex : Inst := ⟨2, 1, 2, fun j m => if m = 0 then 1 + j else 2 - j, fun p => p⟩
+def ex : Inst := ⟨2, 1, 2, fun j m => if m = 0 then 1 + j else 2 - j, fun p => p, false⟩
 example : WF ex := ⟨by decide, by decide, by decide, by intro p hp; exact hp, by
   intro j m hj _
   have : j < 2 := hj
